@@ -1,6 +1,7 @@
 import ast
 import functools
 import inspect
+import re
 from collections.abc import Mapping, MutableMapping
 from typing import (
     TYPE_CHECKING,
@@ -143,7 +144,26 @@ def stateful_eval(
     stateful_nodes: list[tuple[str, ast.Call]] = []
     for node in ast.walk(code):
         if _is_stateful_transform(node, env):
-            stateful_nodes.append((format_expr(node), cast(ast.Call, node)))
+            # State is keyed by the call as written (quoted names restored):
+            # the aliases of distinct names can coincide across factors
+            # (`a b` and `a-b` are both a_b when sanitised on their own).
+            name = format_expr(node)
+            if aliases:
+                name = re.sub(
+                    r"(?<![\w.])(?:"
+                    + "|".join(
+                        re.escape(alias)
+                        for alias in sorted(aliases, key=len, reverse=True)
+                    )
+                    + r")(?!\w)",
+                    lambda match: (
+                        match.group(0)
+                        if aliases[match.group(0)] == match.group(0)
+                        else f"`{aliases[match.group(0)]}`"
+                    ),
+                    name,
+                )
+            stateful_nodes.append((name, cast(ast.Call, node)))
 
     # Mutate stateful nodes to pass in state from a shared dictionary. (The same
     # call may occur more than once in an expression; every occurrence shares
